@@ -18,6 +18,10 @@ import AfkakProofs.BrokerClient.BootOnce
 import AfkakProofs.BrokerClient.Genuine
 import AfkakProofs.BrokerClient.Bytes
 import AfkakProofs.BrokerClient.BytesConn
+import AfkakProofs.BrokerClient.Rechunk
+import AfkakProofs.BrokerClient.RechunkRun
+import AfkakProofs.BrokerClient.BytesBoot
+import AfkakProofs.BrokerClient.ReentOwn
 import AfkakProps.Open.C06
 /-!
 # C06 — each request completes exactly once, with the response bearing its own id
@@ -491,6 +495,30 @@ theorem C06_reentrant_fuel_free (cfg : Cfg) (host port : Nat) (evs : List Afkak.
   ⟨Afkak.BrokerClientR.r06_ω cfg host port evs, Afkak.BrokerClientR.partition_ω cfg host port evs,
    Afkak.BrokerClientR.traceRWith_eq_ω cfg evs _⟩
 
+/-- "A response is never delivered to a different request / only the frame bearing its id completes a request", WITH
+    re-entrant callbacks (audit round 2, C06-1): in ANY state of the re-entrant model, with any fuel, for ANY event —
+    callbacks nested to any depth, stubborn and synchronous endpoints included — a Deferred fires with response bytes,
+    at top level or inside a callback, only in a `dataReceived` step on a readable connection, and then with a packet
+    that THIS call completed (a frame `feed` yields from `_unprocessed` and the chunk) whose first four bytes are the
+    request's correlation id.  So a frame with an unknown id fires nobody, nothing fires `ok` in any other kind of step,
+    and no callback can make a Deferred fire with bytes that are not a frame of this very call.  (The R-analogue of
+    `C06_own_response`; the stream monitor `r06` checks only the id.) -/
+theorem C06_reentrant_own_response (cfg : Cfg) (fuel : Nat) (s : Afkak.BrokerClientR.StR) (e : Afkak.BrokerClientR.EvR)
+    (k : Nat) (i : Int) (b : Bytes)
+    (h : Afkak.BrokerClientR.ObR.ob (.fire k i (.ok b)) ∈ (Afkak.BrokerClientR.stepRWith cfg fuel s e).2) :
+    ∃ chunk conn, e = .flat (.bytesIn chunk) ∧ s.core.proto = some conn ∧ s.core.losing = false ∧
+      b ∈ (feed s.core.rbuf chunk).frames ∧ corrId b = some i :=
+  Afkak.BrokerClientR.own_response_R cfg fuel s e i b _ h ⟨k, rfl⟩
+
+/-- non-vacuity: the reply to request 1 arrives; its callback makes request 3 and cancels request 2 from inside the firing -/
+example : (Afkak.BrokerClientR.traceR ⟨fun _ => 1⟩ (Afkak.BrokerClientR.StR.init 1 9092)
+      [.make 1 true (some [.make 3 true, .cancel 2]), .make 2 true none, .flat .connOk,
+       .flat (.bytesIn [0, 0, 0, 4, 0, 0, 0, 1])]).map (·.2) =
+    [[.ob (.connect 1 9092), .made 0 1], [.made 1 2], [.ob (.write 0 0 1), .ob (.write 0 1 2)],
+     [.ob (.fire 0 1 (.ok [0, 0, 0, 1])), .hookBegin 0, .ob (.write 0 2 3), .made 2 3, .ob (.fire 1 2 (.err .cancelled)),
+      .hookEnd]] := by decide +kernel
+
+
 /-- The same for the very function the DRIVER executes (`stepR` = fuel 100000, `traceR`): whenever the driver's fuel
     covers the explicit per-step bound along the run (`fuelOk`, a decidable check on the scenario; the generated
     scenarios need a few hundred), the driver's run IS the fuel-free run, and `r06` accepts it. -/
@@ -730,6 +758,18 @@ theorem C06_bytes_meaning (tr : List (Ev × List Ob)) (h : bytesOk tr = true) :
       ((parseAll g.bytes).exceeded = true → g.dropped = true) :=
   bytesOk_meaning tr h
 
+/-- `bytesOk`, step by step, for ANY trace (audit round 2, C06-3): a Deferred fires with response bytes only in a
+    `dataReceived` step of the connection that is current, which has not been told to go, and with a packet that THIS
+    call completed — one of `newFrames` (bytes of that connection before the call) (the chunk), i.e. of the frames by
+    which the whole-stream parse grows through this chunk — carrying its correlation id.  (A re-used id cannot be answered
+    by an earlier frame of the same connection.) -/
+theorem C06_bytes_meaning_at (pre post : List (Ev × List Ob)) (e : Ev) (os : List Ob)
+    (h : bytesOk (pre ++ (e, os) :: post) = true) (x : Nat × Int × Bytes) (hx : x ∈ okFires os) :
+    ∃ chunk g, e = .bytesIn chunk ∧ (lrun LSt.init pre).cur = some g ∧ g.dropped = false ∧
+      x.2.2 ∈ newFrames g.bytes chunk ∧ corrId x.2.2 = some x.2.1 :=
+  bytesOk_at pre post e os h x hx
+
+
 /-- C06 sentences 1+2 end to end on raw bytes, for every event list of the model: each Deferred fires at most once
     (`firedOf`: all firings, of any kind), and a Deferred that fires with response bytes does so with a frame of the
     whole-stream parse of the bytes of the connection it was answered on, carrying its correlation id. -/
@@ -815,6 +855,57 @@ theorem C06_bytes_one_per_frame (cfg : Cfg) (host port : Nat) (evs : List Ev) (c
     · rw [okFires_append]; simpa [okFires] using h
     · exact h
 
+
+/-- "Frames split or coalesced arbitrarily by the transport are reassembled exactly", at the broker client, with NO side
+    condition: in ANY state, for ANY non-empty list of chunks, one `dataReceived` per chunk and ONE `dataReceived` with their
+    concatenation produce the same observations — the same Deferreds fire with the same packets in the same order, the same
+    log lines, the same `lose` / exception / reconnect — up to the `badOp` markers of calls a transport that has stopped
+    reading never makes (`vis` drops them), and end in the same state, up to a receive buffer that is never read again
+    (`Eqv`: equal but for `rbuf`, and equal including `rbuf` whenever the connection is still being read).
+    `C06_chunk_split_unobservable` is the two-chunk case under the hypothesis that the connection stays readable. -/
+theorem C06_bytes_any_chunking (cfg : Cfg) (s : St) (c : Bytes) (cs : List Bytes) :
+    vis (obs cfg s ((c :: cs).map .bytesIn)) = vis (step cfg s (.bytesIn (c :: cs).flatten)).2 ∧
+    Eqv (run cfg s ((c :: cs).map .bytesIn)) (step cfg s (.bytesIn (c :: cs).flatten)).1 :=
+  rechunk cfg cs c s
+
+/-- non-vacuity: two replies and an over-long prefix, cut inside an id, inside a length prefix and after the over-long one -/
+example : let s := run ⟨fun _ => 1⟩ (St.init 1 9092) [.make 5 true, .make 6 true, .connOk]
+    obs ⟨fun _ => 1⟩ s ([[0, 0, 0, 4, 0, 0], [0, 5, 0, 0], [0, 4, 0, 0, 0, 6, 0x80, 0, 0, 0], [1, 2]].map .bytesIn)
+      = [.fire 0 5 (.ok [0, 0, 0, 5]), .fire 1 6 (.ok [0, 0, 0, 6]), .lose 0, .badOp] ∧
+    (step ⟨fun _ => 1⟩ s (.bytesIn [0, 0, 0, 4, 0, 0, 0, 5, 0, 0, 0, 4, 0, 0, 0, 6, 0x80, 0, 0, 0, 1, 2])).2
+      = [.fire 0 5 (.ok [0, 0, 0, 5]), .fire 1 6 (.ok [0, 0, 0, 6]), .lose 0] := by decide +kernel
+
+
+/-- … and whatever follows: after ANY non-empty chunking of a byte string versus its concatenation, EVERY continuation
+    (requests, cancels, losses, reconnects, more bytes, close) produces the same observations (`badOp` markers apart) and
+    ends in the same state (a dead receive buffer apart): how the transport cut the stream can never be told, neither at
+    the time nor later.  (Every event respects `Eqv`: `eqv_step`.) -/
+theorem C06_bytes_chunking_never_observable (cfg : Cfg) (s : St) (c : Bytes) (cs : List Bytes) (post : List Ev) :
+    vis (obs cfg s ((c :: cs).map .bytesIn ++ post)) = vis (obs cfg s (.bytesIn (c :: cs).flatten :: post)) ∧
+    Eqv (run cfg s ((c :: cs).map .bytesIn ++ post)) (run cfg s (.bytesIn (c :: cs).flatten :: post)) :=
+  rechunk_then cfg s c cs post
+
+
+/-- Bootstrap connection on raw bytes: for every event list, every `dataReceived` fires `ok` only with packets which that
+    call completed in the parse — once, from the start — of ALL the bytes the connection has received, and nothing fires
+    `ok` in any other step (`Boot.bootBytesOk`, evaluated by the driver on the traces of the real
+    `KafkaBootstrapProtocol`). -/
+theorem C06_bootstrap_bytes (evs : List Bootstrap.Ev) :
+    Boot.bootBytesOk (Bootstrap.trace Bootstrap.St.init evs) = true := by
+  have := (Boot.binv_run evs Bootstrap.St.init Boot.BL.init Boot.binv_init).good
+  simp [Boot.bootBytesOk, this]
+
+/-- what that means, for any trace: every payload a request Deferred ever fired with is a frame of the whole-stream parse
+    of the bytes the connection received -/
+theorem C06_bootstrap_bytes_meaning (tr : List (Bootstrap.Ev × List Bootstrap.Ob)) (h : Boot.bootBytesOk tr = true) :
+    ∀ t ∈ tr, ∀ b ∈ Boot.okPayloads t.2, b ∈ (parseAll (Boot.brunL Boot.BL.init tr).bytes).frames :=
+  Boot.bootBytes_meaning tr Boot.BL.init (by simpa [Boot.bootBytesOk] using h)
+
+example : Boot.bootBytesOk [(.request [0, 3, 0, 0, 0, 0, 0, 2], [.write 0]), (.bytesIn [0, 0, 0, 5, 0, 0], []),
+      (.bytesIn [0, 2, 0x44], [.fire 0 (.ok [0, 0, 0, 2, 0x44])])] = true ∧
+    Boot.bootBytesOk [(.request [0, 3, 0, 0, 0, 0, 0, 2], [.write 0]), (.bytesIn [0, 0, 0, 5, 0, 0], []),
+      (.bytesIn [0, 2, 0x44], [.fire 0 (.ok [0, 0, 2, 0x44])])] = false := by decide +kernel
+
 end Bytes
 
 /-! Non-vacuity: a run in which Deferreds do fire — one by its own response (delivered in two
@@ -888,13 +979,19 @@ C06_reentrant_partition
 C06_reentrant
 C06_reentrant_fuel_free
 C06_reentrant_driver
+C06_reentrant_own_response
 C06_bytes_of_accepted
 C06_bytes_monitor_sound
 C06_bytes_meaning
+C06_bytes_meaning_at
 C06_bytes_end_to_end
 C06_bytes_partial_frame_dies
 C06_bytes_oversize_ends_connection
 C06_bytes_one_per_frame
+C06_bytes_any_chunking
+C06_bytes_chunking_never_observable
+C06_bootstrap_bytes
+C06_bootstrap_bytes_meaning
 -/
 /- OPEN_STATEMENTS
 C06_bootstrap_no_crosstalk
